@@ -108,6 +108,22 @@ def r8_attach_model(rep, facts):
                   + (f', elements {out["elements"]}' if 'elements' in out else '') + '): a definition is overwritten, merged or lost, or a permitted one refused', loc)
 
 
+def r9_keyval_model(rep, facts):
+    R = rep.rule('C09/R9', 'a key/value line never overwrites: on_keyval evaluated on a model parser state — the value is inserted exactly when the key is not there yet and '
+                 '(for a dotted key) the table it lands in was made by dotted keys; a key that is there, or a dotted key into a table that a header implied, is an error', floor=6)
+    from .shared import keyval_model
+    d = ST + 'on_keyval'
+    loc = facts.loc(facts.body(d)) if facts.has_body(d) else ''
+    for case, out in keyval_model(facts):
+        if isinstance(out, str):
+            (rep.incomplete if out.startswith('unanalysable') else rep.bad)(R, case, f'on_keyval, {case}: {out}', loc)
+            continue
+        want_ok = (not out['occ']) and (out['npath'] == 0 or out['child'][1])
+        good = out['ok'] == want_ok and (out['inserted'] == ['value'] if want_ok else not out['inserted'])
+        rep.check(R, case, good, 'inserted' if out['ok'] else 'refused',
+                  f'on_keyval, {case}: {"accepted" if out["ok"] else "refused"} with insertions {out["inserted"]}; TOML demands {"the value inserted" if want_ok else "an error and nothing inserted"}', loc)
+
+
 def r7_one_name(rep, facts):
     R = rep.rule('C09/R7', 'a key has one identity, its decoded name: every lookup, removal and entry of the parser\'s semantic layer is keyed by the Key itself '
                  '(whose Hash / Eq / Ord / Borrow read nothing but `get()`) or by a string that comes from `Key::get()`; a lookup by the written form '
@@ -658,6 +674,7 @@ def rules(rep, facts):
     r6_flag_targets(rep, facts)
     r6b_opened_table_flags(rep, facts)
     r8_attach_model(rep, facts)
+    r9_keyval_model(rep, facts)
     r7_one_name(rep, facts)
 
 
